@@ -125,22 +125,20 @@ impl<'a> Values for SliceV<'a> {
     fn write_encoded<W: io::Write>(&self, mode: Mode, t: &mut W) -> Result<(), io::Error> { <[Dyn] as Values>::write_encoded(self.0, mode, t) }
 }
 
-/// object-safe view of `Values` (write into a Vec)
+/// object-safe view of `Values` (writes straight into the caller's target, whatever it is)
 pub trait DynValues {
     fn dyn_len(&self, mode: Mode) -> usize;
-    fn dyn_write(&self, mode: Mode, out: &mut Vec<u8>);
+    fn dyn_write(&self, mode: Mode, out: &mut dyn io::Write) -> Result<(), io::Error>;
 }
 impl<T: Values> DynValues for T {
     fn dyn_len(&self, mode: Mode) -> usize { self.encoded_len(mode) }
-    fn dyn_write(&self, mode: Mode, out: &mut Vec<u8>) { self.write_encoded(mode, out).unwrap() }
+    fn dyn_write(&self, mode: Mode, out: &mut dyn io::Write) -> Result<(), io::Error> { let mut o = out; self.write_encoded(mode, &mut o) }
 }
 
 impl Values for Dyn {
     fn encoded_len(&self, mode: Mode) -> usize { self.with(&mut |v| v.dyn_len(mode)) }
     fn write_encoded<W: io::Write>(&self, mode: Mode, target: &mut W) -> Result<(), io::Error> {
-        let mut buf = Vec::new();
-        self.with(&mut |v| v.dyn_write(mode, &mut buf));
-        target.write_all(&buf)
+        self.with(&mut |v| v.dyn_write(mode, &mut *target))
     }
 }
 
